@@ -184,6 +184,16 @@ func C33(e *simkern.Env) {
 	if generator {
 		maxPer *= 2
 	}
+	// "any number of uploads": one generator run in five is a long one — a few
+	// uploaders drawing hundreds of keys each (a pool, counter or buffer that
+	// wraps or refills wrongly only shows after many keys)
+	long := generator && tp.Bool(1, 5)
+	if long {
+		maxPer = 100 + tp.Draw(500)
+		for i := range nUp {
+			nUp[i] = 1 + tp.Draw(2)
+		}
+	}
 	perUp := make([][]int, nProc)
 	for p := range perUp {
 		for u := 0; u < nUp[p]; u++ {
@@ -205,6 +215,7 @@ func C33(e *simkern.Env) {
 	e.Knob("processes", nProc)
 	e.Knob("uploaders", nUp)
 	e.Knob("prefix", prefix)
+	e.Knob("long_run", long)
 	site := "s3-" + mode
 
 	var sample []string
@@ -315,7 +326,7 @@ func C33(e *simkern.Env) {
 			{time.Second, "clock-advance-coarse", 1},
 		}
 		reason, _ := sim.Run(simkern.RunOpts{
-			MaxSteps: 4000,
+			MaxSteps: map[bool]int{false: 4000, true: 40000}[long],
 			Done:     func() bool { return sim.RootsDone() || e.Violated() || e.Res.HarnessError != "" },
 			Extra: func() []simkern.Action {
 				// "no advance" is every step at which none of these is chosen:
@@ -356,7 +367,7 @@ func init() {
 	Registry["C33"] = &Info{
 		Run:   C33,
 		Level: "exploration",
-		Rule: "each run draws the mode (real S3Storage.Upload against a stub S3 endpoint | exported key generator), 1-3 processes (independent NewS3Storage values, one bucket and prefix), 1-8 uploader tasks per process, 1-2 (thorough 1-4, generator mode x2) uploads per uploader, prefix and content encoding from the tape; " +
+		Rule: "each run draws the mode (real S3Storage.Upload against a stub S3 endpoint | exported key generator), 1-3 processes (independent NewS3Storage values, one bucket and prefix), 1-8 uploader tasks per process, 1-2 (thorough 1-4, generator mode x2) uploads per uploader — one generator run in five is a long one with 1-2 uploaders per process drawing up to 100-600 keys each — prefix and content encoding from the tape; " +
 			"the scheduler picks which uploader obtains its next key and, between any two of them, whether the clock stays where it is or moves by 1 ns, 10 ns, 100 ns, 999 ns, 1 us, 10 us, 1 ms or 1 s; oracle: no object key is used twice in the run; " +
 			"distinct = distinct schedule fingerprint (sequence of uploader moves and clock advances); non-trivial = at least two keys were obtained",
 		Real:  []string{"vgis3.NewS3Storage + S3Storage.Upload (key construction, aws-sdk-go-v2 PutObject and presign) in upload mode", "vgis3.generateUUID through the verif-tagged export in generator mode", "testing/synctest clock (time.Now inside the key generator)"},
